@@ -35,6 +35,9 @@ def make_case(rng, ast, kind, canonical=False, force=None):
     text, lex, r = sf.render_stmt(rng, ast, canonical, force)
     if r.unrenderable:
         return None
+    if not canonical and rng.random() < 0.12:
+        # statements longer than the scanner's 1024-byte read block, with a token straddling a block boundary
+        text = sf.pad_to_buffer_boundary(rng, text)
     return {"ast": ast, "text": text, "opts_term": r.opts_term(), "kind": kind, "nlex": len(lex), "flags": r.flags()}
 
 
